@@ -49,7 +49,10 @@ IPv4_PATTERN = re.compile(
 # Modified from https://stackoverflow.com/a/17871737/1715495
 IPv6_PATTERN = re.compile(
     r"(?:(?<=^)|(?<={enclosing}))".format(enclosing=_IPv6_ENCLOSING)
-    + r"(([0-9a-f]{1,4}:){7,7}[0-9a-f]{1,4}"
+    # Addresses ending in an embedded IPv4 address go first, otherwise a shorter
+    # alternative matches up to the first dot; candidates are validated later
+    + r"((?:[0-9a-f]{{0,4}}:)+({octet}\.){{3}}{octet}".format(octet=_IPv4_OCTET_PATTERN)
+    + r"|([0-9a-f]{1,4}:){7,7}[0-9a-f]{1,4}"
     r"|([0-9a-f]{1,4}:){1,7}:"
     r"|([0-9a-f]{1,4}:){1,6}:[0-9a-f]{1,4}"
     r"|([0-9a-f]{1,4}:){1,5}(:[0-9a-f]{1,4}){1,2}"
